@@ -216,7 +216,7 @@ func summariseCatch(c *core.Ctx, ci *catchImpl) {
 				if nilArg {
 					continue
 				}
-				plain, sent, cancelled, gaveUp := 0, 0, false, false
+				plain, sent, cancelled, gaveUp, sentBlind := 0, 0, false, false, false
 				afterSent := false
 				for i := range p.Steps {
 					st := &p.Steps[i]
@@ -262,6 +262,9 @@ func summariseCatch(c *core.Ctx, ci *catchImpl) {
 						case st.Chosen >= 0 && st.Chosen == sendArm:
 							sent++
 							gaveUp = false
+							if dArm < 0 {
+								sentBlind = true // handed over by a non-blocking attempt that never looks at the context
+							}
 						case st.Chosen >= 0 && st.Chosen == dArm:
 							cancelled = true
 						default:
@@ -316,6 +319,16 @@ func summariseCatch(c *core.Ctx, ci *catchImpl) {
 				}
 				if plain != 0 {
 					try = false
+				}
+				if sent == 1 && sentBlind && !(ret.IsConst() && ret.Aux == "false") {
+					// the try form is a stage's only look at the context on its failure path (`if !catch {return}; continue`
+					// skips the stage's own select): a hand-over that succeeds without a <-ctx.Done() arm beside it - a
+					// non-blocking fast path in front of the real select - lets a stage whose function keeps failing run on
+					// after cancellation for as long as the error channel has room or a reader
+					try = false
+					if ci.Why == "" {
+						ci.Why = "a path of catch hands the error over and reports 'go on' without a <-ctx.Done() arm beside the send (non-blocking fast path): on the failure path the stage never observes cancellation while the error channel has room"
+					}
 				}
 				want := "false"
 				if sent == 1 {
